@@ -168,5 +168,75 @@ def idcStar (ordf : List World → List World) (dordf kordf : List Var → List 
     (outcomes conditions : Event) : Except Err Expr :=
   idcStarFuel ordf dordf kordf G (idcStarFuelBound G outcomes conditions) outcomes conditions
 
+/-! ### executable membership tests of the two fragments on which soundness is PROVED (Props/C08.lean:
+`idcstar_sound_fragment`, `idcstar_sound_fragment_exchange`); the driver evaluates them so that the harness can compare its own
+classification of the real run with them -/
+
+/-- the unstarred value symbol of `x` -/
+abbrev unstar (x : Name) : Iv := ⟨x, false⟩
+
+/-- the single factual condition `X = x` -/
+abbrev condOf (x : Name) : Event := [(Var.plain x, unstar x)]
+
+/-- the outcomes after the exchange: every `Y = y` becomes `Y_x = y` -/
+def exOut (O : Event) (x : Name) : Event := O.map fun p => (atWorld p.1.name [unstar x], p.2)
+
+/-- static part of the fragment, as an executable test: outcomes and conditions are dicts of FACTUAL variables of `G` with
+unstarred values, no variable name on both sides, at least one condition -/
+def fragCStaticB (G : MG Name) (O C : Event) : Bool :=
+  decide O.keys.Nodup && decide C.keys.Nodup &&
+  (O ++ C).all (fun p => decide (p.1 = Var.plain p.1.name) && decide (p.2 = ⟨p.1.name, false⟩) && decide (p.1.name ∈ G.nodes)) &&
+  O.keys.all (fun o => C.keys.all (fun c => decide (o.name ≠ c.name))) && !C.isEmpty
+
+/-- rule 2 applies to no condition (line 4 does not recurse) -/
+def noExchangeB (ordf : List World → List World) (G : MG Name) (O C : Event) : Bool :=
+  match makeCounterfactualGraph ordf G (O ++ C) with
+  | .ok (cf, some _) => (match firstExchangeable cf O.keys C.keys with | .ok none => true | _ => false)
+  | _ => true
+
+/-- ID*'s estimand for the joint event mentions exactly the event's variables: nothing was marginalised (no `Sum`, whose
+bound variable `Expression.conditional` would sum over a second time — what remains of F11) -/
+def estNamesB (ordf : List World → List World) (dordf : List Var → List Var) (G : MG Name) (O C : Event) : Bool :=
+  match idStar ordf dordf G (O ++ C) with
+  | .ok est => (exprNames est).all (fun n => decide (n ∈ (O ++ C).keys.map (·.name))) &&
+      ((O ++ C).keys.map (·.name)).all (fun n => decide (n ∈ exprNames est))
+  | .error _ => true
+
+/-- **The fragment of IDC\***: observational conditional queries `P(y | x)` (conjunctions of factual variables of `G`, unstarred
+values, outcome names ≠ condition names) on which rule 2 applies to no condition and ID* answers the joint event without
+marginalising a variable.  Decidable from the input (`inFragmentCB` runs the model's own test functions). -/
+def inFragmentCB (ordf : List World → List World) (dordf : List Var → List Var) (G : MG Name) (O C : Event) : Bool :=
+  fragCStaticB G O C && noExchangeB ordf G O C && estNamesB ordf dordf G O C
+
+/-- static part of the exchange fragment: the static part of `InFragmentC`, at least one outcome, exactly ONE condition -/
+def fragXStaticB (G : MG Name) (O C : Event) : Bool :=
+  fragCStaticB G O C && !O.isEmpty && decide (C.length = 1)
+
+/-- dynamic part, run with the model's own functions: rule 2 applies to the condition `X = x` (line 4 recurses), the exchange
+turns EVERY outcome `Y` into `Y_x` (every outcome descends from `X` in the counterfactual graph), and the counterfactual graph
+of the exchanged outcomes keeps every `Y_x` (no `Y_x` is merged into `Y`) -/
+def exchangeB (ordf : List World → List World) (G : MG Name) (O C : Event) : Bool :=
+  match C with
+  | [(c, val)] =>
+    (match makeCounterfactualGraph ordf G (O ++ C) with
+     | .ok (cf, some _) =>
+       (match firstExchangeable cf O.keys C.keys with
+        | .ok (some _) => (match exchangeOutcomes cf O c val with | .ok no' => decide (no' = exOut O c.name) | _ => false)
+        | _ => false)
+     | _ => true) &&
+    (match makeCounterfactualGraph ordf G (exOut O c.name) with
+     | .ok (_, some nev2) => (exOut O c.name).all (fun p => nev2.has p.1)
+     | _ => true)
+  | _ => false
+
+/-- **The exchange fragment of IDC\***: observational queries `P(y | x)` with ONE condition — factual variables of `G`, unstarred
+values, the outcome names different from `X` — on which rule 2 of the do-calculus applies to `X` according to
+`cf_rule_2_of_do_calculus_applies` and every outcome descends from `X`.  IDC* then answers with ID*'s estimand for `P(y_x)`.
+Decidable from the input (`inFragmentXB` runs the model's own functions).  Disjoint from `InFragmentC` (there rule 2 applies to
+no condition). -/
+def inFragmentXB (ordf : List World → List World) (G : MG Name) (O C : Event) : Bool :=
+  fragXStaticB G O C && exchangeB ordf G O C
+
+
 end Cf
 end Y0
